@@ -263,10 +263,11 @@ class Source(tuple, metaclass=abc.ABCMeta):
         Returns:
             Schema type.
         """
+        names = [getattr(c, 'name', None) for c in self.features]  # only elements and aliased features have names
         return self.Schema(
             self.__class__.__name__,
             (_struct.Schema.schema,),
-            {(c.name or f'_{i}'): _struct.Field(c.kind, c.name) for i, c in enumerate(self.features)},
+            {(n or f'_{i}'): _struct.Field(c.kind, n) for i, (c, n) in enumerate(zip(self.features, names))},
         )
 
     @functools.cached_property
@@ -731,7 +732,8 @@ class Reference(Origin):
 
     @functools.cached_property
     def features(self) -> typing.Sequence['dsl.Element']:
-        return tuple(series.Element(self, c.name) for c in self.instance.features)
+        # named after the schema fields (instance features without a name get the positional field name)
+        return tuple(series.Element(self, f.name) for f in self.instance.schema)
 
     @property
     def schema(self) -> 'dsl.Source.Schema':
